@@ -48,6 +48,12 @@ def durableWithin (o : WalOpts) (c : Compression) (prog : List WalOp) (n : Nat) 
   let (_, ev0, ts) := Wal.run o c prog
   durableAux ts ev0.length 0 0 n
 
+/-- all bytes the events write to file `f`, in order -/
+def bytesWritten (f : Nat) : List FsEvent → Bytes
+  | [] => []
+  | .write g bs :: es => if g = f then bs ++ bytesWritten f es else bytesWritten f es
+  | _ :: es => bytesWritten f es
+
 /-- record sizes fit the 64-bit header fields (always true of real slices) -/
 def OpFits (c : Compression) : WalOp → Prop
   | .append r => FitsRec c r
@@ -55,6 +61,13 @@ def OpFits (c : Compression) : WalOp → Prop
   | .rotate => True
 
 def ProgFits (c : Compression) (prog : List WalOp) : Prop := ∀ op ∈ prog, OpFits c op
+
+/-- every record the program tries to append, in order -/
+def progRecords : List WalOp → List GoBytes
+  | [] => []
+  | .append r :: ops => r :: progRecords ops
+  | .appendSync r :: ops => r :: progRecords ops
+  | .rotate :: ops => progRecords ops
 
 /-- the one-million-files guard never fired -/
 def NoGuard (o : WalOpts) (c : Compression) (prog : List WalOp) : Prop :=
